@@ -796,6 +796,9 @@ fn concurrent_child(seed: u64, dir: &Path, replay: Option<Vec<u32>>) -> Value {
 	for p in &out.panics {
 		vs.push(("panic".into(), p.clone()));
 	}
+	if out.out_of_steps {
+		vs.push(("no-progress".into(), format!("threads still running after {} scheduling points (livelock, e.g. a resize that waits for a transaction that does not exist): last points {:?}", out.trace.len(), out.trace.iter().rev().take(6).map(|(t, l)| format!("{}:{}", out.names.get(*t as usize).cloned().unwrap_or_default(), l)).collect::<Vec<_>>())));
+	}
 	// final contents: the last committed version of every group, the fill keys of committed rounds only
 	if out.deadlock.is_none() && !out.out_of_steps && out.panics.is_empty() {
 		for w in 0..n_writers {
